@@ -19,8 +19,9 @@ DriftOf(p, o) ==
          [] f = "id" -> p.fwd /\ o.fwd /\ \E h \in IdH : p.id[h] # o.id[h]
          [] f = "sessCookie" -> p.fwd /\ o.fwd /\ p.sessCookie # o.sessCookie
          [] f = "others" -> p.fwd /\ o.fwd /\ p.others # o.others
-         [] f = "rsa" -> p.fwd /\ o.fwd /\ p.rsa # o.rsa
-         [] f = "hmac" -> p.fwd /\ o.fwd /\ p.hmac # o.hmac }
+         \* without a signer / key a client's own Sso-Signature / Gap-Signature header travels on: outside the statement
+         [] f = "rsa" -> p.fwd /\ o.fwd /\ p.rsa = "ok" /\ p.rsa # o.rsa
+         [] f = "hmac" -> p.fwd /\ o.fwd /\ p.hmac = "ok" /\ p.hmac # o.hmac }
 
 \* the driver's projection must stay inside the alphabet the rules are written over
 Malformed(o) ==
